@@ -2421,11 +2421,12 @@ def distributed_shampoo(
       m1_scale_shape_and_dtype = []
       m2_scale_shape_and_dtype = []
       if qdtype != jnp.float32:
-        # Quantized buffers are stored as `qdtype`, their bucket sizes as floats.
+        # Quantized buffers are stored as `qdtype`, their bucket sizes in the
+        # dtype of the buffer that was quantized (zeros_like(param)).
         m1_shape_and_dtype = [list(param.shape), qdtype]
         m2_shape_and_dtype = [list(param.shape), qdtype]
-        m1_scale_shape_and_dtype = [list(param.shape)[1:], jnp.float32]
-        m2_scale_shape_and_dtype = [list(param.shape)[1:], jnp.float32]
+        m1_scale_shape_and_dtype = [list(param.shape)[1:], param.dtype]
+        m2_scale_shape_and_dtype = [list(param.shape)[1:], param.dtype]
 
       diagonal_statistics_shape_and_dtype = [list(param.shape), param.dtype]
       local_stats_flat.append(
